@@ -1,0 +1,50 @@
+//go:build verif
+
+// Verification hooks (build tag "verif"): dumps of the eviction heaps.
+
+package eviction
+
+import (
+	"encoding/hex"
+	"fmt"
+	"sort"
+)
+
+func verifHex(s string) string {
+	if s == "" {
+		return "-"
+	}
+	return hex.EncodeToString([]byte(s))
+}
+
+// VerifDump returns the heap entries in slice order (key@unixTime) and the recorded keys, sorted.
+func (cache *CacheLRU) VerifDump() (entries []string, keys []string) {
+	for _, e := range cache.entries {
+		if e == nil {
+			entries = append(entries, "nil")
+			continue
+		}
+		entries = append(entries, fmt.Sprintf("%s@%d", verifHex(e.key), e.unixTime))
+	}
+	for k := range cache.keys {
+		keys = append(keys, verifHex(k))
+	}
+	sort.Strings(keys)
+	return
+}
+
+// VerifDump returns the heap entries in slice order (key#count@addedTime) and the recorded keys, sorted.
+func (cache *CacheLFU) VerifDump() (entries []string, keys []string) {
+	for _, e := range cache.entries {
+		if e == nil {
+			entries = append(entries, "nil")
+			continue
+		}
+		entries = append(entries, fmt.Sprintf("%s#%d@%d", verifHex(e.key), e.count, e.addedTime))
+	}
+	for k := range cache.keys {
+		keys = append(keys, verifHex(k))
+	}
+	sort.Strings(keys)
+	return
+}
